@@ -172,7 +172,7 @@ func storesInPkg(m *Model, f *ssa.Function, loc string, seen map[*ssa.Function]b
 func init() {
 	register(&Rule{
 		ID: "SPLIT-1",
-		Doc: "the component split loses nothing: in the traversal of package connected (the recursive function and the closures nested in it) every insertion into a visited set - a map keyed by *Node or *Edge - is conditional on nothing but a membership test of that same set for that same key; " +
+		Doc: "the component split loses nothing: in package connected every insertion into a visited set - a map keyed by *Node or *Edge - is conditional on nothing but a membership test of that same set for that same key (a node insertion may also sit behind an edge-set test: the node is reached through the edge); " +
 			"an edge recorded only when, say, its far end is still unvisited drops every edge that closes an undirected cycle (parallel and antiparallel copies, chords) from its component, and the output is collected from the components",
 		Floor: 2,
 		Ctl:   []string{"internal__graph__connected__split1.go.txt"},
@@ -191,17 +191,7 @@ func runSplit1(m *Model, r *RuleResult) {
 		if shortPkg(pkgPathOf(f)) != "internal/graph/connected" {
 			continue
 		}
-		t := top(f)
-		// only traversal families: the top function is called (statically) from itself or from one of its literals
-		recursive := false
-		for _, g := range m.Src {
-			if top(g) == t && len(staticCalls(g, func(c *ssa.Function) bool { return c == t })) > 0 {
-				recursive = true
-			}
-		}
-		if !recursive {
-			continue
-		}
+		_ = top
 		loops := naturalLoops(f)
 		n := 0
 		eachInstr(f, func(in ssa.Instruction) {
@@ -230,6 +220,13 @@ func runSplit1(m *Model, r *RuleResult) {
 				mp, k, isTest := membershipTest(d.If.Cond)
 				if isTest && k == mu.Key && sameMapValue(mp, mu.Map) {
 					continue
+				}
+				// a node is reached through an edge: its insertion may sit behind the "edge already seen" test (the far end
+				// of a seen edge has been handled when that edge was first seen); the converse is the defect
+				if isTest && kind == "node" {
+					if mt2, ok := mp.Type().Underlying().(*types.Map); ok && namedKey(mt2.Key()) == igEdge {
+						continue
+					}
 				}
 				// a nil test of the key itself: nothing that is reached is left out by it
 				if bo, ok := d.If.Cond.(*ssa.BinOp); ok && (bo.Op == token.EQL || bo.Op == token.NEQ) {
@@ -456,7 +453,8 @@ func init() {
 	register(&Rule{
 		ID: "OPTS-1",
 		Doc: "options reach the parameters unchanged: in every exported option constructor of package autog (a function returning Option whose result is a closure over *options) each store into a field of the options / parameter record is unconditional, " +
-			"and what is stored is the constructor's own argument (captured), a constant, or a function literal; a guard such as `if spacing > 0` silently replaces a legal value (0 is a legal spacing) by the default",
+			"and what is stored is the constructor's own argument (captured), a constant, or a function literal; a guard such as `if spacing > 0` silently replaces a legal value (0 is a legal spacing) by the default. " +
+			"A constructor that takes arguments stores no constant on the side (the thoroughness option must not also select the layerer), and neither the closure nor the functions it installs write a captured variable or map (an Option value may be reused and shared: state captured in it survives the call)",
 		Floor: 8,
 		Ctl:   []string{"ROOT__opts1.go.txt"},
 		Run:   runOpts1,
@@ -512,7 +510,7 @@ func runOpts1(m *Model, r *RuleResult) {
 			}
 			n++
 			if deps := transitiveControlDeps(st.Block()); len(deps) > 0 {
-				bad = append(bad, fmt.Sprintf("the store into %s at %s happens only under %s", strings.TrimPrefix(loc, "autog.options."), m.Pos(st.Pos()), deps[0].If.Cond.String()))
+				bad = append(bad, fmt.Sprintf("the store into %s at %s happens only under %s: a legal value is silently replaced by the default", strings.TrimPrefix(loc, "autog.options."), m.Pos(st.Pos()), deps[0].If.Cond.String()))
 			}
 			v := st.Val
 			if ct, ok := v.(*ssa.ChangeType); ok {
@@ -529,12 +527,89 @@ func runOpts1(m *Model, r *RuleResult) {
 				bad = append(bad, "the value stored into "+loc+" at "+m.Pos(st.Pos())+" is computed ("+v.String()+"), not the constructor's argument")
 			}
 		})
+		// a constructor that takes arguments sets fields from them and from nothing else: a constant stored on the side
+		// (say, the layering algorithm inside the thoroughness option) silently overrides another option of the same call
+		if len(f.Params) > 0 {
+			eachInstr(cl, func(in ssa.Instruction) {
+				st, ok := in.(*ssa.Store)
+				if !ok {
+					return
+				}
+				fa, ok := st.Addr.(*ssa.FieldAddr)
+				if !ok {
+					return
+				}
+				_, steps := fieldChain(fa)
+				loc := locOfSteps(steps)
+				if !strings.HasPrefix(loc, "autog.options.") && !strings.HasPrefix(loc, igPar+".") {
+					return
+				}
+				v := st.Val
+				if ct, ok := v.(*ssa.ChangeType); ok {
+					v = ct.X
+				}
+				if mi, ok := v.(*ssa.MakeInterface); ok {
+					v = mi.X
+				}
+				if _, isConst := v.(*ssa.Const); isConst {
+					bad = append(bad, "besides its own argument the option sets "+strings.TrimPrefix(loc, "autog.options.")+" to a constant at "+m.Pos(st.Pos())+" (another option of the same call is silently overridden)")
+				}
+			})
+		}
+		// no state captured by the option (or by the functions it installs) is written: an Option value may be reused for
+		// several Layout calls, and concurrent calls may share it
+		var family []*ssa.Function
+		var collect func(g *ssa.Function)
+		collect = func(g *ssa.Function) {
+			family = append(family, g)
+			for _, a := range g.AnonFuncs {
+				collect(a)
+			}
+		}
+		collect(f)
+		for _, g := range family {
+			eachInstr(g, func(in ssa.Instruction) {
+				var addr ssa.Value
+				switch x := in.(type) {
+				case *ssa.Store:
+					addr = x.Addr
+				case *ssa.MapUpdate:
+					// a captured map
+					mv := x.Map
+					if u, ok := mv.(*ssa.UnOp); ok && u.Op == token.MUL {
+						mv = u.X
+					}
+					if _, isFV := mv.(*ssa.FreeVar); isFV {
+						bad = append(bad, "a captured map is updated at "+m.Pos(x.Pos())+": the Option value carries state from one Layout call to the next")
+					}
+					return
+				default:
+					return
+				}
+				for {
+					switch a := addr.(type) {
+					case *ssa.FieldAddr:
+						addr = a.X
+						continue
+					case *ssa.IndexAddr:
+						addr = a.X
+						continue
+					}
+					break
+				}
+				if fv, isFV := addr.(*ssa.FreeVar); isFV {
+					bad = append(bad, "the captured variable "+fv.Name()+" is written at "+m.Pos(in.Pos())+": the Option value carries state from one Layout call to the next (and between concurrent calls)")
+				}
+				// a variable of the constructor itself that its closures capture and the constructor's closures write is caught above;
+				// the constructor's own writes to its locals before returning are initialisation
+			})
+		}
 		switch {
 		case n == 0:
 			r.add(Obligation{Key: key, Pos: m.Pos(f.Pos()), Desc: "option constructor must set a field of the options record", Verdict: "violation", Detail: "no store into the options / parameter record: the option has no effect", Control: ctl})
 		case len(bad) > 0:
-			r.add(Obligation{Key: key, Pos: m.Pos(f.Pos()), Desc: "an option must hand its argument to the parameters unchanged and unconditionally", Verdict: "violation",
-				Detail: strings.Join(bad, "; ") + ": a legal value is silently replaced by the default", Control: ctl})
+			r.add(Obligation{Key: key, Pos: m.Pos(f.Pos()), Desc: "an option hands its argument to the parameters unchanged and unconditionally, sets nothing else, and keeps no state", Verdict: "violation",
+				Detail: strings.Join(bad, "; "), Control: ctl})
 		default:
 			r.add(Obligation{Key: key, Pos: m.Pos(f.Pos()), Desc: fmt.Sprintf("stores its argument (or a constant / function literal) into the record unconditionally (%d store(s))", n), Verdict: "holds", Control: ctl})
 		}
@@ -548,7 +623,7 @@ func init() {
 		ID: "DISP-1",
 		Doc: "the algorithm that runs is the one the option names: in every Process method of the five phase packages, which dispatch target is called - a function of the package taking the graph that is called under a comparison of the receiver with an algorithm constant - depends on nothing but such comparisons; " +
 			"any other condition on the way to a target must be an early-exit guard (its other branch reaches no target). A size-gated fallback (`if len(g.Nodes) > 512 { greedy } else { depth-first }`) silently replaces the documented algorithm and its guarantees",
-		Floor: 8,
+		Floor: 4,
 		Ctl:   []string{"internal__phase1__disp1.go.txt"},
 		Run:   runDisp1,
 	})
@@ -672,6 +747,93 @@ func runDisp1(m *Model, r *RuleResult) {
 			} else {
 				r.add(Obligation{Key: key, Pos: m.Pos(s.in.Pos()), Desc: "which algorithm runs must depend on the option alone", Verdict: "violation",
 					Detail: "whether " + s.fn.Name() + " or another algorithm runs also depends on " + strings.Join(uniq(bad), "; ") + ": the caller silently gets a different algorithm than the one selected, without its guarantees", Control: ctl})
+			}
+		}
+	}
+}
+
+// ---------- ORD-6 ----------
+
+func init() {
+	register(&Rule{
+		ID: "ORD-6",
+		Doc: "parameters are read only after the options have been applied: in Layout (and the helpers of its package) the local options record that the option functions are applied to - the dynamic calls `opt(&record)` in a loop - is not read before that loop has finished; " +
+			"a value read earlier is the default, whatever the caller asked for (a component gap hoisted above the option loop is always 60)",
+		Floor: 1,
+		Ctl:   []string{"ROOT__ord6.go.txt"},
+		Run:   runOrd6,
+	})
+}
+
+func runOrd6(m *Model, r *RuleResult) {
+	for _, f := range m.Src {
+		if pkgPathOf(f) != modPath || f.Parent() != nil {
+			continue
+		}
+		loops := naturalLoops(f)
+		// option-application sites: dynamic calls (through a func value of type Option) whose argument is the address of a local
+		type appl struct {
+			rec  ssa.Value
+			loop *loopInfo
+			in   ssa.Instruction
+		}
+		var as []appl
+		eachInstr(f, func(in ssa.Instruction) {
+			ci, ok := in.(ssa.CallInstruction)
+			if !ok || ci.Common().IsInvoke() || ci.Common().StaticCallee() != nil || len(ci.Common().Args) != 1 {
+				return
+			}
+			if namedKey(ci.Common().Value.Type()) != "autog.Option" {
+				return
+			}
+			var al ssa.Value
+			switch x := ci.Common().Args[0].(type) {
+			case *ssa.Alloc:
+				al = x
+			case *ssa.Parameter:
+				al = x // the record of the caller, handed to an `apply` helper
+			default:
+				return
+			}
+			ls := loopsContaining(loops, in.Block())
+			if len(ls) == 0 {
+				return
+			}
+			as = append(as, appl{al, ls[len(ls)-1], in})
+		})
+		for _, a := range as {
+			ctl := m.FuncIsPosctl(f)
+			key := "options-read-after-applied:" + funcKey(f)
+			var bad []string
+			// every read of the record (a load through a field address chain, or of the whole record) that is not inside the
+			// loop must be dominated by the loop's exit, i.e. not be reachable before the loop
+			var visit func(addr ssa.Value)
+			visit = func(addr ssa.Value) {
+				if addr.Referrers() == nil {
+					return
+				}
+				for _, ref := range *addr.Referrers() {
+					switch x := ref.(type) {
+					case *ssa.FieldAddr:
+						visit(x)
+					case *ssa.UnOp:
+						if x.Op != token.MUL || a.loop.Body[x.Block()] {
+							continue
+						}
+						// before the loop: the read's block reaches the loop header
+						if x.Block() == a.loop.Head || blocksReachableFrom(x.Block())[a.loop.Head] {
+							bad = append(bad, m.Pos(x.Pos()))
+						}
+					}
+				}
+			}
+			visit(a.rec)
+			// the initial copy of the defaults into the record is a store, not a read of the record: nothing to exclude
+			if len(bad) == 0 {
+				r.add(Obligation{Key: key, Pos: m.Pos(a.in.Pos()), Desc: "the options record is read only after all option functions have been applied to it", Verdict: "holds", Control: ctl})
+			} else {
+				r.add(Obligation{Key: key, Pos: m.Pos(a.in.Pos()), Desc: "the options record must not be read before the options are applied", Verdict: "violation",
+					Detail: "read at " + strings.Join(uniq(bad), ", ") + ", before the loop that applies the caller's options: the value is the default, not what the caller asked for", Control: ctl})
 			}
 		}
 	}
